@@ -5,10 +5,12 @@ qm_c01 — driver for the C01 guards model and the result-inhabitation oracle.
 
 Requests (one S-expression list per line; see Core/Types/Codec.lean for `<type>`, `<tuple>`, `<value>`):
   (table (types <type>…) (tuples <tuple>…))   set the current table            → ok <#types> <#tuples>
-  (unify <param id> <arg id>)                 `unify` from empty bindings      → ok (<name> <id>)… | fail | fuel-out
+  (unify <param id> <arg id>)                 `unify` from empty bindings      → ok (bindings (<name> <id>)…) <new entries> | fail <new entries> | fuel-out
+  (subst (<name> <id>)… <type id>)            `substitute` on the scratch table (= the table after the
+                                              last `unify`), which it extends   → ok <id> <new entries> | fuel-out
   (unify-old <param id> <arg id>)             the rule before fix 8f4b36d      → same
   (call <rules> <param id> <result id> <arg id>)  call guard under a rule set  → accept <result id> <new entries> | reject | fuel-out
-       <rules> ::= cur | old | strict-cycle | merge-widen   (`cur` = the code as it is; the others
+       <rules> ::= cur | old | strict-cycle | old-merge   (`cur` = the code as it is; the others
        are the alternatives of `QM.Soundness.Rules`, used to classify findings). The table
        extended by the guard is kept as the *scratch* table:
   (inh-scratch <type id> <value>)             `inh` against the scratch table  → true | false | fuel-out
@@ -27,7 +29,7 @@ def rulesOfSx : Sx → Option Rules
   | .atom "cur" => some Rules.current
   | .atom "old" => some Rules.beforeF6
   | .atom "strict-cycle" => some { cycle := .strict }
-  | .atom "merge-widen" => some { merge := .takeWidened }
+  | .atom "old-merge" => some Rules.beforeMergeFix
   | _ => none
 
 def guardFuel (T : Table) : Nat := 4 * (T.types.length + T.tuples.length) + 64
@@ -57,10 +59,10 @@ def insertSorted (p : Name × Nat) : List (Name × Nat) → List (Name × Nat)
 def renderBindings (b : Bindings) : String :=
   String.join ((b.foldr insertSorted []).map (fun p => s!" ({p.1} {p.2})"))
 
-def renderURes : URes → String
+def renderURes (T : Table) : URes → String
   | none => "fuel-out"
-  | some (_, none) => "fail"
-  | some (_, some b) => "ok" ++ renderBindings b
+  | some (T', none) => "fail " ++ Table.renderNew T T'
+  | some (T', some b) => "ok (bindings" ++ renderBindings b ++ ") " ++ Table.renderNew T T'
 
 def c01Step (s : C01State) (req : List Sx) : C01State × String :=
   match req with
@@ -72,14 +74,34 @@ def c01Step (s : C01State) (req : List Sx) : C01State × String :=
     match p.asNat, a.asNat with
     | some p, some a =>
       let f := guardFuel s.table
-      (s, renderURes (unify f f s.table [] p a))
+      let r := unify f f s.table [] p a
+      let s' := match r with
+        | some (T', _) => { s with scratch := T' }
+        | none => s
+      (s', renderURes s.table r)
     | _, _ => (s, "bad-request")
   | [.list [.atom "unify-old", p, a]] =>
     match p.asNat, a.asNat with
     | some p, some a =>
       let f := guardFuel s.table
-      (s, renderURes (unifyAnyVariant f f s.table [] p a))
+      (s, renderURes s.table (unifyAnyVariant f f s.table [] p a))
     | _, _ => (s, "bad-request")
+  | [.list (.atom "subst" :: rest)] =>
+    match rest.reverse with
+    | t :: bsRev =>
+      let bs : Option Bindings := listMapM (fun x =>
+        match x with
+        | Sx.list [n, i] => match n.asNat, i.asNat with
+          | some n, some i => some (n, i)
+          | _, _ => none
+        | _ => none) bsRev.reverse
+      match t.asNat, bs with
+      | some t, some bs =>
+        match substitute bs (guardFuel s.scratch) s.scratch t with
+        | some (T', r) => ({ s with scratch := T' }, s!"ok {r} " ++ Table.renderNew s.scratch T')
+        | none => (s, "fuel-out")
+      | _, _ => (s, "bad-request")
+    | [] => (s, "bad-request")
   | [.list [.atom "call", rs, p, r, a]] =>
     match rulesOfSx rs, p.asNat, r.asNat, a.asNat with
     | some rules, some p, some r, some a =>
